@@ -36,7 +36,12 @@ class Malformed(Exception):
     """The forest itself is broken (undefined variable, cyclic definition, bad index)."""
 
 
+BLIND = [False]        # classification aid: interpret every builtin as the same function
+
+
 def builtin(name, x):
+    if BLIND[0]:
+        return (x * x + 1) / 3
     if name == 'abs':
         return abs(x)
     if name in FUNCS:
